@@ -215,7 +215,6 @@ func c09Deps(c *Ctx) {
 	c.R.Check(rule, "coverage", "-", ndep >= 50, fmt.Sprintf("only %d dependency functions were reachable: the scan did not enter the decimal library", ndep))
 }
 
-
 // initOnly: f is an unexported helper that runs during package initialisation only: it is never used as a value and
 // every call of it sits in an init function.
 func (c *Ctx) initOnly(f *ssa.Function) bool {
